@@ -90,6 +90,14 @@ def _kinds_build(p):
     if k in (0, 1):
         pairs += [('and_bool', a & bool(k)), ('or_bool', a | bool(k)), ('add_bool', a + bool(k))]
     # verilog-style strings in every base (hex digits incl. the letters that are also base specifiers)
+    # constants with an explicit bitwidth wider than their value needs (leading zeros), wider than the wire too
+    for pad in (1, 4):
+        cw = pyrtl.Const(k, bitwidth=kw + pad)
+        sw = "%d'd%d" % (kw + pad, k)
+        pairs += [('lt_pad%d' % pad, a < cw), ('gt_pad%d' % pad, a > cw), ('eq_pad%d' % pad, a == cw),
+                  ('ne_pad%d' % pad, a != cw), ('le_pad%d' % pad, a <= cw), ('ge_pad%d' % pad, a >= cw),
+                  ('lt_spad%d' % pad, a < sw), ('eq_spad%d' % pad, a == sw), ('rlt_pad%d' % pad, cw < a),
+                  ('add_pad%d' % pad, a + cw), ('and_pad%d' % pad, a & cw)]
     pairs += [('xor_hex', a ^ ("%d'h%x" % (kw, k))), ('xor_HEX', a ^ ("%d'H%X" % (kw, k))),
               ('xor_bin', a ^ ("%d'b%s" % (kw, bin(k)[2:]))), ('xor_oct', a ^ ("%d'o%o" % (kw, k))),
               ('add_widehex', a + ("%d'h%x" % (kw + 3, k)))]
@@ -109,6 +117,12 @@ def _kinds_spec(o, p, ins):
     if k in (0, 1):
         d.update(and_bool=a & k, or_bool=a | k, add_bool=a + k)
     d.update(xor_hex=a ^ k, xor_HEX=a ^ k, xor_bin=a ^ k, xor_oct=a ^ k, add_widehex=a + k)
+    for pad in (1, 4):
+        d.update({'lt_pad%d' % pad: o.ite(a < k, 1, 0), 'gt_pad%d' % pad: o.ite(a > k, 1, 0),
+                  'eq_pad%d' % pad: o.ite(a == k, 1, 0), 'ne_pad%d' % pad: o.ite(a == k, 0, 1),
+                  'le_pad%d' % pad: o.ite(a > k, 0, 1), 'ge_pad%d' % pad: o.ite(a < k, 0, 1),
+                  'lt_spad%d' % pad: o.ite(a < k, 1, 0), 'eq_spad%d' % pad: o.ite(a == k, 1, 0),
+                  'rlt_pad%d' % pad: o.ite(a > k, 1, 0), 'add_pad%d' % pad: a + k, 'and_pad%d' % pad: a & k})
     return d
 
 
@@ -124,6 +138,12 @@ def _kinds_lens(p):
     if k in (0, 1):
         d.update(and_bool=m, or_bool=m, add_bool=m + 1)
     d.update(xor_hex=m, xor_HEX=m, xor_bin=m, xor_oct=m, add_widehex=max(wa, kw + 3) + 1)
+    for pad in (1, 4):
+        for nm in ('lt', 'gt', 'eq', 'ne', 'le', 'ge', 'rlt'):
+            d['%s_pad%d' % (nm, pad)] = 1
+        d['lt_spad%d' % pad] = d['eq_spad%d' % pad] = 1
+        d['add_pad%d' % pad] = max(wa, kw + pad) + 1
+        d['and_pad%d' % pad] = max(wa, kw + pad)
     return d
 
 
